@@ -67,6 +67,8 @@ def messy_layout(rng, words, ws=bip39.ASCII_WS):
 def boundary_scalar(rng):
     """A secp256k1 scalar in [1, n-1], boundary-biased."""
     r = rng.random()
+    if r < 0.08:
+        return limb_value(rng) % (N - 1) + 1
     if r < 0.25:
         return rng.choice([1, 2, 3, N - 3, N - 2, N - 1, 2**255, 2**128, 2**64 - 1, (N - 1) // 2, (N + 1) // 2])
     if r < 0.35:
@@ -76,6 +78,8 @@ def boundary_scalar(rng):
 
 def boundary_u256(rng):
     r = rng.random()
+    if r < 0.06:
+        return limb_value(rng)
     if r < 0.3:
         k = rng.randrange(0, 33)
         base = 1 << (8 * k)
@@ -97,6 +101,64 @@ COLLIDING_KEYS = [
     (0x49ff73895a0511b9b12659a1c398e8252c3aefd8ba7b559ad3a2b0457039eeb2, 0x240d4a4dea70ffcbdba8cebd50dc214e1f69143add736a71dd64367f69793d4f),
     (0xcdf36c1f9ac9816b64e434b0be5dadebaac1aa8d6886080a09eb57baa6cd3159, 0x14060315e984313f05c37488aeac6aa0736d14942db46fefaa7ca28a1f9d3a72),
 ]
+
+
+N_HI, N_LO = N >> 128, N & (2**128 - 1)
+_LIMBS = [0, 1, 2, 2**63, 2**64 - 1, 2**64, 2**127 - 1, 2**127, 2**128 - 2, 2**128 - 1, N_HI, N_HI - 1, N_LO, N_LO - 1, N_LO + 1, N_HI >> 1, N_LO >> 1]
+
+
+def limb_value(rng):
+    """A 256-bit value whose two 128-bit halves (or four 64-bit quarters) sit on boundaries: hand-written multi-word arithmetic
+    (compare, subtract-with-borrow, add-with-carry) goes wrong exactly there."""
+    k = rng.randrange(6)
+    if k == 0:
+        return (rng.choice(_LIMBS) << 128) | rng.choice(_LIMBS)
+    if k == 1:
+        return ((2**128 - 1) << 128) | rng.choice([0, 1, N_LO - 1, N_LO, N_LO + 1, rng.randrange(N_LO), rng.randrange(N_LO, 2**128)])
+    if k == 2:
+        x = rng.getrandbits(128)
+        return rng.choice([(x << 128) | x, (x << 128) | (x ^ (2**128 - 1)), (x << 128) | ((x + 1) % 2**128), x << 128, x])
+    if k == 3:
+        q = [rng.choice([0, 1, 2**63, 2**64 - 1, rng.getrandbits(64)]) for _ in range(4)]
+        return (q[0] << 192) | (q[1] << 128) | (q[2] << 64) | q[3]
+    if k == 4:
+        return (N_HI << 128) | rng.choice([0, 1, N_LO - 2, N_LO - 1, N_LO, N_LO + 1, 2**128 - 1, rng.getrandbits(128)])
+    return (rng.choice([N_HI - 1, N_HI + 1 if N_HI + 1 < 2**128 else N_HI, rng.getrandbits(128)]) << 128) | rng.choice([N_LO, N_LO - 1, 0, 2**128 - 1])
+
+
+def swapped_halves(rng):
+    """Pairs of distinct keys that collide under simple checksums of their words (sum / xor of halves or quarters, byte sum)."""
+    a, b = rng.getrandbits(128) | 1, rng.getrandbits(128) | 2
+    k = rng.randrange(4)
+    if k == 0:
+        x, y = (a << 128) | b, (b << 128) | a
+    elif k == 1:
+        s = rng.randrange(1, 2**64)
+        x, y = s, s << 128
+    elif k == 2:
+        q = [rng.getrandbits(64) for _ in range(4)]
+        x = (q[0] << 192) | (q[1] << 128) | (q[2] << 64) | q[3]
+        y = (q[3] << 192) | (q[2] << 128) | (q[1] << 64) | q[0]
+    else:
+        x = (a << 128) | b
+        y = int.from_bytes(x.to_bytes(32, "big")[::-1], "big")
+    x, y = x % (N - 1) + 1, y % (N - 1) + 1
+    return (x, y) if x != y else (x, x % (N - 1) + 1)
+
+
+SPECIAL_ADDRESSES = ([i.to_bytes(20, "big") for i in range(0, 12)] + [b"\xff" * 20, bytes.fromhex("000000000000000000000000000000000000dead"),
+                     bytes.fromhex("eeeeeeeeeeeeeeeeeeeeeeeeeeeeeeeeeeeeeeee"), bytes.fromhex("4e59b44847b379578588920ca78fbf26c0b4956c"),
+                     bytes.fromhex("0000000000000000000000000000000000001000"), bytes.fromhex("ffffffffffffffffffffffffffffffffffffff00"),
+                     (0x100).to_bytes(20, "big"), bytes.fromhex("c02aaa39b223fe8d0a0e5c4f27ead9083c756cc2")])
+
+# Words of the surrounding ecosystem (units, Solidity keywords, JSON-RPC / library field names, EIP vocabulary). A lenient parser that
+# "helpfully" understands one of them is exactly what the properties exclude.
+VOCAB_UNITS = ["wei", "kwei", "mwei", "gwei", "szabo", "finney", "ether", "eth", "ETH", "Gwei", "e18", "k", "M"]
+VOCAB_TYPE_WORDS = ["payable", "memory", "calldata", "storage", "indexed", "internal", "external", "view"]
+VOCAB_TYPES = ["address payable", "tuple", "function", "mapping", "uint256 memory", "string calldata", "bytes memory", "fixed128x18", "ufixed", "enum", "contract",
+               "struct", "bytes32 indexed", "address[] memory", "string[]storage", "uint", "int", "byte", "var", "bool payable", "hash", "bytes32hash"]
+VOCAB_FIELD_NAMES = ["extensions", "fields", "eip712Domain", "domain", "nonce", "deadline", "owner", "spender", "value", "types", "primaryType", "message",
+                     "chainid", "chain", "networkId", "verifier", "contract", "address", "signature", "permit", "EIP712Domain", "domainSeparator", "typeHash", "hash"]
 
 
 def near_collisions(rng, nbytes=32):
